@@ -570,6 +570,35 @@ func runParse(c *Ctx, std *fdCapture) {
 		}
 		lit(litLen, "")
 	}
+	// long tokens: keys, words, literals and numbers of many bytes (one-, two-, three- and four-byte characters), where they are
+	// accepted and where they are rejected (the message quotes the token it stumbled on); lengths around the usual buffer and
+	// cut-off sizes and around every integer constant that is new in the source
+	{
+		lens := around([]int{16, 17, 21, 22, 33, 60, 61, 63, 64, 65, 96, 97, 127, 128, 129, 255, 256, 257, 1000}, 4000)
+		units := []string{"a", "é", "日", "😀", "я"}
+		for li, L := range lens {
+			for ui, u := range units {
+				if (li+ui)%2 == 1 && !c.thorough() && L > 70 {
+					continue
+				}
+				tok := strings.Repeat(u, L)
+				mixed := strings.Repeat("a", L/2) + strings.Repeat(u, L-L/2)
+				for _, q := range []string{tok, "$." + tok, "$.a " + tok, "$.a." + tok + "(", "$.a." + tok + "(1)", "$.a.Equal(" + tok + ")", `$.a.Equal("` + tok + `")`, `$.a.Equal("` + tok,
+					"$." + tok + ".Equal(1) x", "{" + tok + "}", "$.a[" + tok + "]", "$.a[@." + tok + "]", "$.a.Equal(1" + tok + ")", `$.a.Contains("` + mixed + `").Not()`,
+					`$.xs[@.k.Equal("` + tok + `")].k`, `$.a.AnyOf("x","` + mixed + `",1)`, `$.a.Equal($.b.Equal("` + tok + `"))`, `{$.a.Equal("` + tok + `")}`, "$." + tok + "?." + mixed,
+					"$.a.Equal(" + strings.Repeat("7", L) + ")", "$.a.Equal(0." + strings.Repeat("3", L) + ")"} {
+					emit(q, "long-tokens")
+				}
+			}
+		}
+	}
+	// every new string constant of the source, as a key, a function name, a literal and a bare token
+	for _, ns := range novelConsts().Strs {
+		for _, q := range []string{ns, "$." + ns, "$.a." + ns + "(1)", "$.a." + ns + "()", `$.a.Equal("` + strings.ReplaceAll(strings.ReplaceAll(ns, `\`, `\\`), `"`, `\"`) + `")`, "$.a.Equal(" + ns + ")",
+			"{" + ns + ",$.a}", "$.a[" + ns + ",@.b]", "$.a[@." + ns + "(2)]", "{$.a." + ns + "($.b)}"} {
+			emit(q, "new-source-strings")
+		}
+	}
 	all := append(append([]string{}, c08Alphabet...), parseExtra...)
 	for i := 0; i < c.scale(40000, 400000); i++ {
 		l := 1 + r.Intn(14)
@@ -607,7 +636,7 @@ func runParse(c *Ctx, std *fdCapture) {
 	}
 	if !isC09 {
 		// long and deep inputs
-		for _, n := range []int{10, 60} {
+		for _, n := range around([]int{10, 60, 200}, 300) {
 			emit(strings.Repeat("{", n)+"$.a"+strings.Repeat("}", n), "deep")
 			emit("$.a"+strings.Repeat("[@.b", n)+strings.Repeat("]", n), "deep")
 			emit("$.a.Equal("+strings.Repeat("{", n)+"$.a"+strings.Repeat("}", n)+")", "deep")
